@@ -103,6 +103,8 @@ public:
     //! Tell the ledger about a transaction handed to the wallet that may never reach chain or mempool.
     void NoteTx(const CTransactionRef& tx);
     const std::map<Txid, CTransactionRef>& KnownTxs() const { return m_known; }
+    //! the same transactions in the order in which they were first seen
+    const std::vector<Txid>& KnownOrder() const { return m_known_order; }
     //! all in-mempool transactions in a parents-first order (as of the last Refresh)
     const std::vector<CTransactionRef>& MempoolTxs() const { return m_mempool; }
     //! who spends this outpoint on the active chain / in the mempool (any outpoint, tracked or not)
@@ -238,7 +240,8 @@ public:
     void Sync();
     const ShadowLedger& Ledger() const { return *m_ledger; }
     ShadowLedger& LedgerMut() { return *m_ledger; }
-    //! own bookkeeping of LockCoin/UnlockCoin requests (the wallet silently unlocks a coin when a wallet tx spends it; so does this)
+    //! own bookkeeping of LockCoin/UnlockCoin requests. The wallet silently drops a lock when a transaction spending the coin is
+    //! *added* to it; so does this (a transaction first seen after the lock was taken that spends the coin).
     bool Lock(const COutPoint& op, bool persist = false);
     bool Unlock(const COutPoint& op);
     const std::set<COutPoint>& Locked() const { return m_locked; }
@@ -266,6 +269,7 @@ private:
     std::unique_ptr<ShadowLedger> m_faucet_ledger;
     std::shared_ptr<Recorder> m_recorder;
     std::set<COutPoint> m_locked;
+    std::map<COutPoint, size_t> m_lock_mark; //!< number of known transactions when the lock was taken
     std::set<COutPoint> m_faucet_reserved; //!< faucet coins handed out in transactions that were never seen on chain/mempool
     Options m_opts;
     std::vector<std::string> m_arg_store;
